@@ -17,8 +17,11 @@ fn base_project() -> cmd::Project {
 }
 
 /// one load-modify-write of the store through the real API; returns Err on any load error
-fn invocation(p: &cmd::Project, id: usize, writer: bool, think_ms: (u64, u64)) -> Result<(), String> {
-    let cfg = p.cfg(&[]);
+/// global flags an invocation may be started with; none of them makes it read-only
+const FLAGS: [&[&str]; 3] = [&[], &["--locked"], &["--locked", "--frozen"]];
+
+fn invocation(p: &cmd::Project, id: usize, writer: bool, think_ms: (u64, u64), flags: usize) -> Result<(), String> {
+    let cfg = p.cfg(FLAGS[flags % FLAGS.len()]);
     std::thread::sleep(std::time::Duration::from_millis(think_ms.0));
     let mut store = match guarded(|| Store::acquire_offline(&cfg)) {
         Ok(Ok(s)) => s,
@@ -52,17 +55,19 @@ fn schedules(r: &mut Report, rng: &mut Rng, n: u64) {
     for i in 0..n {
         let p = std::sync::Arc::new(base_project());
         let k = rng.range(2, 6);
-        let plan: Vec<(bool, (u64, u64))> = (0..k).map(|_| (rng.chance(2, 3), (rng.below(12) as u64, rng.below(12) as u64))).collect();
+        // in a third of the schedules every invocation is started with --locked (and some --frozen)
+        let all_locked = i % 3 == 2;
+        let plan: Vec<(bool, (u64, u64), usize)> = (0..k).map(|_| (rng.chance(2, 3), (rng.below(12) as u64, rng.below(12) as u64), if all_locked { 1 + rng.below(2) } else { rng.below(3) })).collect();
         r.evaluations += 1;
         let errors = std::sync::Arc::new(std::sync::Mutex::new(Vec::<String>::new()));
         let committed = std::sync::Arc::new(std::sync::Mutex::new(Vec::<usize>::new()));
         let mut handles = Vec::new();
-        for (id, (writer, think)) in plan.iter().cloned().enumerate() {
+        for (id, (writer, think, flags)) in plan.iter().cloned().enumerate() {
             let p = p.clone();
             let errors = errors.clone();
             let committed = committed.clone();
             handles.push(std::thread::spawn(move || {
-                match invocation(&p, id, writer, think) {
+                match invocation(&p, id, writer, think, flags) {
                     Ok(()) => {
                         if writer {
                             committed.lock().unwrap().push(id);
@@ -113,7 +118,8 @@ pub fn child() {
     let writer = std::env::var("VERIF_C18_WRITER").map(|v| v == "1").unwrap_or(true);
     let md = gen::GGraph { pkgs: vec![gen::GPkg { name: "rootpkg".into(), version: VetVersion::parse("1.0.0").unwrap(), source: 0, member: true, deps: vec![] }], resolve_order: vec![0], member_order: vec![0] }.metadata();
     let p = cmd::Project { dir: tempfile::Builder::new().prefix("unused").tempdir().unwrap(), md };
-    let mut cfg = p.cfg(&[]);
+    let flags: usize = std::env::var("VERIF_C18_FLAGS").ok().and_then(|v| v.parse().ok()).unwrap_or(0);
+    let mut cfg = p.cfg(FLAGS[flags % FLAGS.len()]);
     cfg.metacfg = MetaConfig(vec![MetaConfigInstance { version: Some(1), store: Some(StoreInfo { path: Some(PathBuf::from(&dir)) }) }]);
     eprintln!("C18CHILD begin");
     let mut store = Store::acquire_offline(&cfg).expect("child load");
@@ -249,6 +255,7 @@ fn traces(r: &mut Report, n: u64) {
             .env("VERIF_PROP", "C18child")
             .env("VERIF_C18_DIR", p.store_dir())
             .env("VERIF_C18_WRITER", if writer { "1" } else { "0" })
+            .env("VERIF_C18_FLAGS", format!("{}", (i / 2) % 3))
             .env_remove("VERIF_OUT")
             .output();
         r.evaluations += 1;
@@ -264,7 +271,7 @@ fn traces(r: &mut Report, n: u64) {
         let evs = parse_trace(&text, p.store_dir().to_str().unwrap());
         r.oracle_checked += 1;
         r.count(&format!("trace-events:{}", evs.len() / 5 * 5));
-        let case = format!("trace#{i} writer={writer}: {evs:?}");
+        let case = format!("trace#{i} writer={writer} flags={:?}: {evs:?}", FLAGS[((i / 2) % 3) as usize]);
         if let Err(why) = conforms(&evs, writer) {
             r.fail("oracle", "C18/trace-nonconforming", why, &case);
         }
@@ -281,5 +288,5 @@ pub fn run(r: &mut Report) {
     let mut rng = Rng::new(r.seed.wrapping_add(shard.wrapping_mul(49979687)) ^ 0xC18);
     let n = if r.thorough() { 2400 } else { 320 } / nshards;
     schedules(r, &mut rng, n.max(4));
-    traces(r, if r.thorough() { 6 } else { 2 });
+    traces(r, if r.thorough() { 12 } else { 6 });
 }
